@@ -55,16 +55,98 @@ def selSteps (t : Table Nat α) (d : Nat) : List (SelStep α) → Option (List N
     | none => pure none
     | some sel => selSteps t d rest (some sel)
 
+/-! ### weight post-processing between the weigher and `Rebalance`
+
+  `ScaleWeights(s)`, `LimitWeights(l)` and `LimitDeltas(limit)` rewrite `temp['weights']`; the harness algo `SetCash(c)` sets
+  `temp['cash']`, which only `Rebalance` reads (so its position in the stack is immaterial: field `cash`).
+
+  * `LimitWeights` is `Weigh.limitWeights` (with `ffn.limit_weights`): when it hands back weights the stack goes on with them
+    (`{}` for an infeasible cap included); when `ffn` raises (`LWOut.raised`) the run raises; when it leaves NaN weights
+    (`LWOut.nan`: the excess cannot be spread over weights that sum to zero) the model stops with `Err.nanData` - the engine
+    model does not carry NaN weights.  Sums are left to right (`sumA`): that is what pandas/numpy do for fewer than 8 terms
+    (from 8 on numpy sums pairwise in blocks; on `Float` the model is bit-exact only below that, and the generators stay below).
+  * `LimitDeltas` reads `target.children[k].weight` - a refreshing getter (`Node.weight`: `if root.stale: root.update(now)`), so
+    with at least one child the tree is refreshed first; the current weights are the `weight` fields of the children.  The
+    code iterates over `set(children.keys() + tw.keys())`: the body for key `k` touches only entry `k`, but keys that are new to
+    the dict are appended in iteration order, which fixes the order `Rebalance` trades them in.  That order (a function of the
+    string hashes of the process) is a parameter: `order`. -/
+
+/-- `LimitDeltas.__call__` with the iteration order of the key set given -/
+def limitDeltasOrd (order : List Nat) (lim : Nat → Option α) (cur tw : Weigh.Dict Nat α) : Weigh.Dict Nat α :=
+  order.foldl (Weigh.ldStep lim cur) tw
+
+inductive WStep (α : Type) where
+  /-- `ScaleWeights(scale)` -/
+  | scale (s : α)
+  /-- `LimitWeights(limit)` -/
+  | limitW (l : α)
+  /-- `LimitDeltas(limit)`: `glob = some l` a global limit, otherwise the limit dict `per`; `order`: iteration order of the key set -/
+  | limitD (order : List Nat) (glob : Option α) (per : List (Nat × α))
+  /-- `RebalanceOverTime(n)` standing in for `Rebalance` at the end of the stack (no `run_always` wrapper): it is then only
+      ever called with fresh `temp['weights']`, which re-arms it (`_days_left = n`) - its memory is never used -, and hands
+      `{k: cur_k + (w_k - cur_k) / n}` to the `Rebalance` it owns.  Only meaningful as the last step. -/
+  | overTime (n : α)
+
+/-- the limit that applies to key `k` -/
+def ldLim (glob : Option α) (per : List (Nat × α)) : Nat → Option α :=
+  match glob with
+  | some g => fun _ => some g
+  | none => Weigh.dictGet per
+
+/-- `{k: target.children[k].weight}` in child order -/
+def curWeights (kids : List (Node α)) : Weigh.Dict Nat α :=
+  (List.range kids.length).zip (kids.map Node.weight)
+
+def lwErr : Weigh.LWErr → Err := fun _ => Err.badPath
+
+/-- `RebalanceOverTime`: `curr + (w - curr) / days_left` for every name of the target (`curr` = 0.0 for a name that is no child) -/
+def rotTargets (daysLeft : α) (cur ws : Weigh.Dict Nat α) : Weigh.Dict Nat α :=
+  ws.map fun p => (p.1, Weigh.dictGetD cur p.1 0 + (p.2 - Weigh.dictGetD cur p.1 0) / daysLeft)
+
+/-- one post-processing algo on (the world, `temp['weights']`) of the strategy at `path` -/
+def postStep (cfg : Cfg α) (path : List Nat) : WStep α → World α × List (Nat × α) → Except Err (World α × List (Nat × α))
+  | .scale s, (w, ws) => pure (w, Weigh.scaleWeights s ws)
+  | .limitW l, (w, ws) =>
+    match Weigh.limitWeights l ws with
+    | .done r => pure (w, r)
+    | .nan _ => throw Err.nanData
+    | .raised e => throw (lwErr e)
+  | .limitD order glob per, (w, ws) =>
+    match w.root.get? path with
+    | some (.strat _ kids0) =>
+      if kids0.isEmpty then pure (w, limitDeltasOrd order (ldLim glob per) [] ws)
+      else
+        (refresh cfg w).bind fun w1 =>
+        match w1.root.get? path with
+        | some (.strat _ kids) => pure (w1, limitDeltasOrd order (ldLim glob per) (curWeights kids) ws)
+        | _ => throw Err.badPath
+    | _ => throw Err.badPath
+  | .overTime n, (w, ws) =>
+    -- the children's weights are read through the refreshing getter (and `Rebalance` refreshes first in any case)
+    (refresh cfg w).bind fun w1 =>
+    match w1.root.get? path with
+    | some (.strat _ kids) => pure (w1, rotTargets n (curWeights kids) ws)
+    | _ => throw Err.badPath
+
+/-- the post-processing algos in stack order -/
+def postSteps (cfg : Cfg α) (path : List Nat) : List (WStep α) → World α × List (Nat × α) → Except Err (World α × List (Nat × α))
+  | [], s => pure s
+  | st :: rest, s => (postStep cfg path st s).bind (postSteps cfg path rest)
+
 structure ProgX (α : Type) where
   gate : List Bool
   ucols : List Nat
   sels : List (SelStep α)
   wgh : Wgh α
+  /-- the algos between the weigher and `Rebalance` -/
+  post : List (WStep α) := []
+  /-- `temp['cash']` when a `SetCash` sits in the stack -/
+  cash : Option α := none
 
 /-- errors of the selection algos (KeyError, IndexError, ...) surface as an error of the run -/
 def selErr : SelErr → Err := fun _ => Err.badPath
 
-/-- the stack `[RunPeriod, sels..., weigher, Rebalance]` of the strategy at `path`, at row `d` -/
+/-- the stack `[RunPeriod, sels..., weigher, post..., (SetCash,) Rebalance]` of the strategy at `path`, at row `d` -/
 def progRunX (cfg : Cfg α) (p : ProgX α) (path : List Nat) : RunFn α := fun d w =>
   if p.gate.getD d false then
     match w.root.get? path with
@@ -75,7 +157,9 @@ def progRunX (cfg : Cfg α) (p : ProgX α) (path : List Nat) : RunFn α := fun d
       | .ok (some sel) =>
         match p.wgh, sel with
         | .equally, none => throw Err.badPath         -- WeighEqually without temp['selected']: KeyError
-        | wg, sel => algoRebalance cfg w path (weights wg (sel.getD [])) none none
+        | wg, sel =>
+          (postSteps cfg path p.post (w, weights wg (sel.getD []))).bind fun s =>
+          algoRebalance cfg s.1 path s.2 p.cash none
     | _ => throw Err.badPath
   else pure w
 
